@@ -29,8 +29,8 @@ def dispatchOs (fn : String) (c : Ctx) : Option (Prog Out) :=
     let d ← c.p 0; let m ← c.n 1; let tm ← c.p 2; let b ← c.b 3; let txt ← c.p 4
     pure (do let r ← asctime_s c.cfg d m tm b txt; pure { ret := showCode r })
   | "ctime_s" => do
-    let d ← c.p 0; let m ← c.n 1; let t ← c.p 2; let b ← c.b 3; let txt ← c.p 4
-    pure (do let r ← ctime_s c.cfg d m t b txt; pure { ret := showCode r })
+    let d ← c.p 0; let m ← c.n 1; let t ← c.p 2; let b ← c.b 3; let txt ← c.p 4; let chk ← c.n 5
+    pure (do let r ← ctime_s c.cfg d m t b txt (chk == 3); pure { ret := showCode r })
   | "gmtime_s" => do
     let t ← c.p 0; let d ← c.p 1; let r ← c.p 2
     pure (do let r ← gmtime_s t d r; pure { ret := showCode r })
